@@ -18,7 +18,18 @@ Conventions worth knowing (see the individual docstrings):
     header before the super-table header" trick), so toml_spelled_order(v)
     is a (deep) copy of v.
   * read_documents(.., "msgpack") returns F32 for float32 payloads; it
-    compares equal (values_equal) to the float of the same value.
+    compares equal (values_equal) to the float of the same value.  spell()
+    writes F32 as float32 (0xca) always and float as float64 (0xcb) always.
+  * read_documents(b"", "toml") == [] (no document) but whitespace/comment-only
+    TOML is [{}]; spell({}, "toml", ..) therefore never returns zero bytes.
+  * read_documents(.., "json") wants whitespace between two adjacent top-level
+    values unless one side is a bracket, brace or quote ("truefalse", "1-1" are
+    rejected), rejects NaN/Infinity and numbers that overflow a double.
+  * The YAML reader composes with PyYAML's pure-Python parser (set
+    YAML_USE_LIBYAML = True for the C one) and resolves scalars itself with the
+    YAML 1.2 core schema; unknown tags and recursive aliases are ValueErrors.
+  * toml_reorder() is the reordering TOML *requires*; toml_reorder_xt() (extra)
+    is the stronger regrouping xt 0.19 is observed to apply to nested tables.
 """
 import base64
 import json
@@ -30,7 +41,7 @@ import tomllib
 import yaml
 
 __all__ = [
-    "Map", "F32", "STRING_POOL", "TOKENS", "gen_value", "values_equal", "toml_reorder",
+    "Map", "F32", "STRING_POOL", "TOKENS", "gen_value", "values_equal", "toml_reorder", "toml_reorder_xt",
     "representable", "spell", "spell_canonical", "toml_spelled_order",
     "read_documents", "mutate",
 ]
@@ -58,7 +69,10 @@ class F32:
     def __init__(self, value):
         value = float(value)
         if value == value and value not in (math.inf, -math.inf):
-            value = struct.unpack("<f", struct.pack("<f", value))[0]
+            try:
+                value = struct.unpack("<f", struct.pack("<f", value))[0]
+            except OverflowError:  # rounds beyond the largest finite float32
+                value = math.copysign(math.inf, value)
         self.value = value
 
     def __repr__(self):
@@ -157,6 +171,44 @@ def toml_reorder(v):
     if t is Map:
         return Map([(toml_reorder(k), toml_reorder(x)) for k, x in v.pairs])
     return v
+
+
+def toml_reorder_xt(v):
+    """The entry order xt 0.19 (toml 0.8 with preserve_order) is OBSERVED to write,
+    which is not toml_reorder(): the root table keeps input order, but every nested
+    table is first regrouped by toml::Value's Serialize impl into
+    [neither table nor array containing a table] + [arrays with a table element] +
+    [tables]; the document
+    writer then moves the entries it writes as [table]/[[array of tables]] after
+    the ones it writes inline.  Dicts inside inline arrays only get the regrouping.
+    Extra to the required API; used by test_gen.py to explain mismatches."""
+    def go(v, table_ctx, root):
+        t = type(v)
+        if t is dict:
+            items = list(v.items())
+            if not root:
+                def has_table(x):
+                    return type(x) is list and any(type(e) is dict for e in x)
+                items = ([kv for kv in items if type(kv[1]) is not dict and not has_table(kv[1])] +
+                         [kv for kv in items if has_table(kv[1])] +
+                         [kv for kv in items if type(kv[1]) is dict])
+            if table_ctx:
+                items = ([kv for kv in items if not _is_table_value(kv[1])] +
+                         [kv for kv in items if _is_table_value(kv[1])])
+            out = {}
+            for k, x in items:
+                if type(x) is dict:
+                    out[k] = go(x, table_ctx, False)
+                elif type(x) is list:
+                    aot = table_ctx and _is_table_value(x)
+                    out[k] = [go(e, aot, False) for e in x]
+                else:
+                    out[k] = x
+            return out
+        if t is list:
+            return [go(e, False, False) for e in v]
+        return v
+    return go(v, True, True)
 
 
 def _copy(v):
@@ -827,10 +879,8 @@ def _spell_msgpack(v, rng, canonical=False):
         elif t is F32:
             if v.value != v.value:
                 out.append(b"\xca\x7f\xc0\x00\x00")
-            elif canonical or rng.random() < 0.8:
-                out.append(b"\xca" + struct.pack(">f", v.value))
             else:
-                out.append(b"\xcb" + struct.pack(">d", v.value))
+                out.append(b"\xca" + struct.pack(">f", v.value))
         elif t is str:
             b = v.encode("utf-8")
             out.append(_mp_len(len(b), rng, canonical, (0xA0, 32), _MP_STR) + b)
@@ -1380,6 +1430,9 @@ class _TomlSpeller:
     def document(self, v):
         rng = self.rng
         self.table([], v, "root")
+        if not self.out:
+            # never emit zero bytes: read_documents(b"", "toml") means "no document"
+            return b"\n" if self.canonical else rng.choice((b"\n", b"# empty\n", b" \n", b"#"))
         if self.canonical:
             return ("".join(s + "\n" for s in self.out)).encode("utf-8")
         p_c = rng.choice((0.0, 0.0, 0.1, 0.4))
